@@ -267,8 +267,9 @@ def ob_totp_one_time(chk, ir):
             for region, cond in (('same 30 s step', same_step), ('adjacent step (validation accepts +-1 step)', z3.Not(same_step))):
                 r_, m = ex.model_fresh(p2.pc, cond, 60000)
                 if r_ == 'sat':
-                    site = 'validateUserTOTP/' + ('offline-cache/' if (from_cache or not saved) else '') + region
-                    res = chk.violation('totp-one-time', site, f'a TOTP code accepted at t1 is accepted again at t2 ({region}' + (', profile not saved: offline cache' if (from_cache or not saved) else '') + ')', model_dict(m))
+                    # (a success that is not persisted although the profile came from the primary store is NOT the recorded offline-cache case)
+                    site = 'validateUserTOTP/' + ('offline-cache/' if from_cache else 'not-persisted/' if not saved else '') + region
+                    res = chk.violation('totp-one-time', site, f'a TOTP code accepted at t1 is accepted again at t2 ({region}' + (', profile not saved: offline cache' if from_cache else ', the accepted counter was not saved' if not saved else '') + ')', model_dict(m))
                     if res == 'new': verdict = 'violated'
                     elif verdict == 'holds': verdict = 'known'
         H.stub(f'(*{M}.RuntimeState).LoadUserProfile', sweep.st_load_profile)
